@@ -31,8 +31,9 @@ K_EOP = "extendWidth-drops-unaligned-eop"
 K_DEADLOCK = "blockingReg-before-reduceWidth-deadlock"
 K_XREADY = "widthExtend-ready-reads-undefined-eop-behind-blockingReg"
 K_PR_EMPTY = "widthReduce-emptyBits-is-valid-count"
-K_PKT_BE = "packetH-byteEnable-detached"
-BE_KINDS = ["rd", "rb", "rr", "dc", "dl", "st", "ex", "re", "ex", "re"]      # ByteEnable streams: Packet.h converters apart (K_PKT_BE)
+# ByteEnable streams: every stage kind; Packet.h widthExtend only from a one-byte source to 2 / 4 bytes (wider sources do not
+# elaborate on the real code -- loud DesignCheck / assertion, listed in the assumptions), widthReduce since e4b3b0a for all shapes
+BE_KINDS = ["rd", "rb", "rr", "dc", "dl", "st", "ex", "re", "ex", "re", "pr", "pr", "pm", "px"]
 
 REG_STAGES = ("rd", "rb", "rr", "dc", "dl", "ff", "fz")
 
@@ -247,17 +248,24 @@ def gen_chain(rng, depth, allow_fifo=False, force=None, kinds=None, ebsafe=False
                 digits //= r; toks.append(f"re{r}")
             elif k == "px":
                 r = rng.choice([1, 2, 2, 3, 4]) if not ebsafe else rng.choice([2, 2, 3, 4])
+                if be:
+                    if digits != 1:
+                        ok = False; break
+                    r = rng.choice([2, 4])
                 if digits * r > 12:
                     ok = False; break
                 digits *= r; toks.append(f"px{r}")
             elif k == "pr":
                 divs = [r for r in (1, 2, 3, 4, 6, 8) if digits % r == 0]
+                if be and any(r in (3, 4) for r in divs) and rng.random() < 0.6:
+                    divs = [r for r in divs if r in (3, 4)]
                 if not divs:
                     ok = False; break
                 r = rng.choice(divs[1:] if len(divs) > 1 and rng.random() < 0.9 else divs)
                 digits //= r; toks.append(f"pr{r}")
             elif k == "pm":
-                targets = [t for t in (1, 2, 3, 4, 6, 8, 12) if (t % digits == 0 or digits % t == 0)]
+                targets = [t for t in (1, 2, 3, 4, 6, 8, 12) if (t % digits == 0 or digits % t == 0)
+                           and (not be or t <= digits or (digits == 1 and t in (2, 4)))]
                 t = rng.choice(targets)
                 digits = t; toks.append(f"pm{t}")
             elif k in ("ff", "fz"):
@@ -454,13 +462,15 @@ def gen_pkt_cases(seed, tiername, tag, count, n, eb):
 
 # (digits of the chain input, chain): the width conversions named in the requirement, bytes = digits
 BE_SHAPES = [(6, ["re3"]), (8, ["re4"]), (12, ["re3"]), (12, ["re4"]), (8, ["re2"]), (12, ["re6"]), (2, ["ex3"]), (2, ["ex4"]), (4, ["ex3"]),
+             (6, ["pr3"]), (8, ["pr4"]), (12, ["pr3"]), (12, ["pr4"]), (4, ["pr2"]), (8, ["pr2"]), (1, ["px2"]), (1, ["px4"]), (8, ["pm2"]), (1, ["pm4"]),
+             (8, ["rd", "pr4", "rr"]), (1, ["px4", "rd", "pr2"]), (12, ["pr3", "dc"]), (2, ["ex4", "pr4"]),
              (3, ["ex4"]), (8, ["rd", "re4", "rr"]), (12, ["dc", "re3"]), (6, ["re3", "dl2"]), (2, ["ex3", "re3"]), (4, ["ex2", "rd", "re4"]),
              (8, ["st0", "re4"]), (12, ["re3", "st0", "rd"])]
 
 
 def gen_be_cases(seed, tiername, tag, count, n):
-    """streams with ByteEnable (one enable bit per payload byte) and Error through every stage kind with a Coq machine or the
-    fifo; ratios 3 and 4 with 2- and 4-byte narrow beats (48->16, 64->16, 96->32 ...); random, sparse and all-ones enables"""
+    """streams with ByteEnable (one enable bit per payload byte) and Error through every stage kind (utils.h and Packet.h
+    converters, registers, delay, stall, fifo); ratios 3 and 4 with 2- and 4-byte narrow beats (48->16, 64->16, 96->32 ...); random, sparse and all-ones enables"""
     rng = random.Random(f"C16/{seed}/{tiername}/{tag}")
     cases = []; i = 0
     for d0, toks in BE_SHAPES:
@@ -472,7 +482,7 @@ def gen_be_cases(seed, tiername, tag, count, n):
                 cases.append(gen_pkt_case(rng, f"{tag}{i}", n, False, depth=len(toks), tokens=toks, be=True, kinds=BE_KINDS,
                                           digits0=d0, extra=" shape=" + "+".join(toks)))
             i += 1
-    for f in (["rd"], ["rb"], ["rr"], ["dc"], ["dl"], ["st"], ["ex"], ["re"], ["ff"], ["fz"]):
+    for f in (["rd"], ["rb"], ["rr"], ["dc"], ["dl"], ["st"], ["ex"], ["re"], ["pr"], ["pm"], ["ff"], ["fz"]):
         cases.append(gen_case(rng, f"{tag}{i}", n, depth=1, hold=True, polite=True, force=f, be=True, kinds=BE_KINDS, allow_fifo=True)); i += 1
     while len(cases) < count:
         fifo = rng.random() < 0.2
@@ -481,16 +491,6 @@ def gen_be_cases(seed, tiername, tag, count, n):
         else:
             cases.append(gen_pkt_case(rng, f"{tag}{i}", n, False, be=True, kinds=BE_KINDS, allow_fifo=fifo))
         i += 1
-    return cases
-
-
-def gen_be_packeth_cases(seed, tiername, n):
-    """ByteEnable streams through the Packet.h converters (kept apart: K_PKT_BE)"""
-    rng = random.Random(f"C16/{seed}/{tiername}/be_packeth")
-    cases = []
-    for i, (d0, f) in enumerate([(8, ["pr"]), (6, ["pr"]), (12, ["pr"]), (4, ["pr"]), (1, ["px"]), (2, ["px"]), (4, ["px"]), (2, ["pm"]), (8, ["pm"]),
-                                 (8, ["rd", "pr", "rr"]), (2, ["px", "rd", "pr"]), (12, ["pr", "dc"])]):
-        cases.append(gen_pkt_case(rng, f"be_packeth{i}", n, False, depth=len(f), force=f, be=True, kinds=STAGE_KINDS, digits0=d0, extra=" packeth=1"))
     return cases
 
 
@@ -786,7 +786,7 @@ def run_cases(exe, drv, cases, tag):
 def new_agg():
     return dict(cases=0, events=0, hash=set(), classes=collections.Counter(), stage_hist=collections.Counter(), depth_hist=collections.Counter(),
                 pattern_hist=collections.Counter(), flag_hist=collections.Counter(), obs=collections.Counter(), nomodel=0, nontrivial_hashes=set(),
-                branches=collections.Counter(), pause_hist=collections.Counter(), packeth_details=[], be_hist=collections.Counter())
+                branches=collections.Counter(), pause_hist=collections.Counter(), be_hist=collections.Counter())
 
 
 def compare(res, by_id, agg, mismatches, oracle_viol, xlines, samples):
@@ -794,14 +794,8 @@ def compare(res, by_id, agg, mismatches, oracle_viol, xlines, samples):
     for case in read_log(res["impl"]):
         mcase = next(model_cases, None) if model_cases else None
         if case[1] is None:
-            xid = case[0].split()[1] if len(case[0].split()) > 1 else ""
-            if "packeth=1" in (by_id.get(xid) or {}).get("header", ""):
-                agg["obs"][K_PKT_BE] += 1; agg["packeth_details"].append(case[0][:160])
-            else:
-                xlines.append(case[0])
-            continue
+            xlines.append(case[0]); continue
         hline, p, evs = case
-        packeth = p.get("packeth") == "1"
         agg["cases"] += 1; agg["events"] += len(evs)
         stages = parse_chain(p.get("chain", "-"))
         for k, a in stages:
@@ -830,10 +824,7 @@ def compare(res, by_id, agg, mismatches, oracle_viol, xlines, samples):
                 else:
                     for i, (a, b) in enumerate(zip(evs, mevs)):
                         if a != b:
-                            if packeth:
-                                agg["obs"][K_PKT_BE] += 1; agg["packeth_details"].append(f"{hline.split('chain=')[1].split()[0]} min={p.get('min')}: real {a.split('|')[1].strip()} model {b.split('|')[1].strip()}")
-                            else:
-                                mismatches.append(dict(case=hline, event=i, observed=a, expected=b, context=evs[max(0, i - 6):i + 1], src=src))
+                            mismatches.append(dict(case=hline, event=i, observed=a, expected=b, context=evs[max(0, i - 6):i + 1], src=src))
                             break
         v, st, obs = oracle_case(p, evs)
         for kk, vv in st.items():
@@ -844,9 +835,7 @@ def compare(res, by_id, agg, mismatches, oracle_viol, xlines, samples):
             agg["branches"][kk] += vv
         if st.get("nontrivial"):
             agg["nontrivial_hashes"].add(h)
-        if v and packeth:
-            agg["obs"][K_PKT_BE] += 1; agg["packeth_details"].append(f"{hline.split('chain=')[1].split()[0]} min={p.get('min')}: {v['what'][:200]}")
-        elif v:
+        if v:
             v["case"] = hline; v["src"] = src
             oracle_viol.append(v)
         if len(samples) < 3 and len(evs) > 30 and st.get("nontrivial"):
@@ -939,8 +928,6 @@ def main():
     run_batch(gen_expose_cases(seed, tiername, ncyc), "pkteb_expose")
     # streams with ByteEnable + Error through every stage kind (ratios 3 / 4, 2- and 4-byte narrow beats)
     run_batch(gen_be_cases(seed, tiername, "be", nbe, ncyc), "be")
-    # ... and through the Packet.h converters, kept apart (K_PKT_BE)
-    run_batch(gen_be_packeth_cases(seed, tiername, ncyc), "be_packeth")
 
     # ---------------- verdict
     tie_broken = bool(mismatches) or drv is None or not res["ok"] or bool(errors) or bool(xlines)
@@ -1006,16 +993,6 @@ def main():
             for kf in known:
                 if kf.startswith(key):
                     rep.known(kf)
-    # a confirmed defect of the real code (ByteEnable through the Packet.h converters): KNOWN-FINDING if listed, VIOLATION otherwise
-    if agg["obs"].get(K_PKT_BE):
-        listed = [kf for kf in known if kf.startswith(K_PKT_BE)]
-        if listed:
-            rep.known(listed[0])
-        else:
-            rep.violation(dict(property=CID, kind="byte-enable", what="Packet.h widthReduce / widthExtend on a stream with ByteEnable: the byte enables of a narrow beat are not the "
-                               "corresponding slice of the wide beat's byte enables (slice offset counter*W wraps in the counter's width), or the converter does not elaborate",
-                               occurrences=agg["obs"][K_PKT_BE], details=agg["packeth_details"][:8], how_to_replay="checks/C16.py (batch be_packeth)"), tag="packethbe")
-
     # ---------------- evidence
     cov = rep.cov
     cov["evaluations"] = agg["cases"]
@@ -1048,7 +1025,9 @@ def main():
         "producer-hold hypothesis (ready/valid protocol): reduceWidth's transfer theorem and every conditional hold theorem assume the producer keeps valid, payload, eop and meta of an offered beat until it is accepted; a non-conformant producer (hold=0 cases) is used for the tie only",
         "stall: the hold theorem assumes the stall condition does not rise while a beat waits at the stall stage's own output (stall_hold_refuted shows the unconditional form is false; DESIGN Q5, by design)",
         "extendWidth (utils.h) takes eop/meta from the last packed sub-beat: packet boundaries are preserved only for packets aligned to the ratio (extendWidth_unaligned_eop_refuted); Packet.h widthExtend keeps them for all packet lengths (widthExtend_keeps_packet_boundaries) but leaves the digits above a short last beat stale / undefined (wildcards in the oracle)",
-        "the optional reset input of extendWidth / reduceWidth is tied to '0'; ByteEnable / Sop / Error / Empty meta signals are not exercised (one TxId word stands for per-beat meta)",
+        "the optional reset input of extendWidth / reduceWidth is tied to '0'; Sop and Empty (bytes) meta signals are not exercised",
+        "ByteEnable + Error: harness mode be=1 (RvPacketStream<UInt,TxId,ByteEnable,Error>, digit = byte, payloads up to 96 bit) through every stage kind; in the Coq model a digit is then the pair (byte, its enable bit) encoded as byte + 256*enable and the error bit rides in the meta word (txid + 8*error): the machines never look inside a digit / meta word, so the universal theorems state that enables and error stay attached and are sliced / packed with their bytes (unpack_digit_view, pack_digit_view, *_byteEnable_slices); that the REAL stages treat payload and enables in lockstep is established by the cycle-accurate diff and, independently, by the python oracle which slices the enables itself",
+        "observation (not checked, loud on the real code): Packet.h widthExtend on a ByteEnable stream elaborates only from a one-byte source to 2 or 4 bytes (8b->16b, 8b->32b are in the family); wider sources fail with DesignCheck 'missmatching operands size', 8b->24b with Assertion rangeOffset < totalWidth",
         "Packet.h widthExtend / widthReduce are modelled (pextendS / preduceS) and tied cycle-exactly for streams WITHOUT Empty/EmptyBits; streams that carry EmptyBits (partial last beats, truncation path of widthReduce) have no Coq machine: they are checked by the packet oracle only (packets in == packets out digit exact, eop beat not empty, TxId of the eop beat kept, hold rule, drain) -- differential, not theorem",
         "Packet.h matchWidth cannot be instantiated (Packet.h:798 calls in.width() on the Stream object; reported, not repaired): harness token pm<t> is a stand-in that makes the same three-way choice on in->width() and calls the real widthExtend / widthReduce; the model's matchD mirrors that choice",
         "excluded from generation and listed as observations: (a) widthExtend ratio 1 on a stream with EmptyBits (DesignCheck 'missmatching operands size'); (b) regDownstreamBlocking combinationally in front of widthExtend (or, with EmptyBits, widthReduce): ready(in) reads eop/emptyBits of a register without reset value, the simulation stays X from power-up (X-pessimism, harmless in hardware); (c) widthExtend | widthReduce on EmptyBits streams of some non power of two widths (9b->27b->9b): widthReduce's `bitsLeft - zext(emptyBits(in))` rejects the wider EmptyBits that widthExtend produces (elaboration error, no behavioural defect)",
